@@ -75,6 +75,10 @@ def sim_combos(tier):
                 for status in ("OPEN", "SUSPENDED"):
                     for pers in (("LAPSE",) * n, ("PERSIST",) * n) if n == 1 else (("LAPSE",) * n, ("PERSIST", "LAPSE", "PERSIST")[:n]):
                         out.append({"world": "sim", "kind": kind, "n": n, "fates": list(fs), "exec_status": status, "pers": list(pers)})
+                        if kind == "place" and n <= 2:
+                            # the placements go into a trade that had already completed (a hedge added later)
+                            out.append({"world": "sim", "kind": kind, "n": n, "fates": list(fs), "exec_status": status, "pers": list(pers),
+                                        "reuse_completed_trade": True})
     return out
 
 
@@ -240,6 +244,16 @@ def _run_sim(c, s):
     client = s.lab.clients[0]
     prices = s.lab.prices[m.market_id]
     ops = [{"op": "place", "r": i, "side": "BACK", "type": "LIMIT", "tick": 60 + i, "size": 10.0, "pers": c["pers"][i]} for i in range(n)]
+    first = []
+    if c.get("reuse_completed_trade"):
+        # one trade per runner is opened and completed first (order fully matched); the package's orders join them
+        strat.run_ops(m, m.market_book, [{"op": "place", "r": i, "side": "BACK", "type": "LIMIT", "tick": 60 + i, "size": 2.0, "pers": "LAPSE"} for i in range(n)], 0, 0)
+        s.step(0, {"k": "book", "dt": 1000, "rc": [{"r": i, "trd": [[60 + i, 500.0]]} for i in range(n)]})
+        first = list(strat.my_orders)
+        if any(o.trade.status.name != "COMPLETE" for o in first):
+            raise Violation("setup", (), "first trades %s" % [o.trade.status.name for o in first], c)
+        for i, op_ in enumerate(ops):
+            op_.update(trade=i, reuse_completed_trade=True)
     if kind != "place":
         strat.run_ops(m, m.market_book, ops, 0, 0)
         s.step(0, {"k": "book", "dt": 1000, "rc": []})
@@ -251,7 +265,7 @@ def _run_sim(c, s):
     with m.transaction(client=client) as t:
         if kind == "place":
             strat.run_ops(m, m.market_book, ops, 0, 0, transaction=t)
-            orders = list(strat.my_orders)
+            orders = [o for o in strat.my_orders if not any(o is x for x in first)]
         else:
             for i, o in enumerate(orders):
                 if kind == "cancel":
@@ -291,6 +305,9 @@ def _run_sim(c, s):
                             "order %d left %s (fate %s, market %s at execution)" % (i, st, fate, c["exec_status"]), c)
         if o.trade.status.name == "PENDING":
             raise Violation("trade-left-pending", (kind,), "trade of order %d left PENDING" % i, c)
+        if not o.complete and o.trade.status.name != "LIVE":
+            raise Violation("trade-not-live-with-live-order", (kind, o.trade.status.name, "joined-completed-trade" if c.get("reuse_completed_trade") else "own-trade", "sim"),
+                            "order %d is %s but its trade is %s (log %s)" % (i, st, o.trade.status.name, [x.name for x in o.trade.status_log]), c)
         if c["exec_status"] == "SUSPENDED" and "lapsed" not in c["fates"]:
             pass
         if fate in ("matched", "voided") and not o.complete:
